@@ -3,65 +3,367 @@ import RxModel.Conc.Footprint
 import RxModel.Conc.BehaviorLts
 /-
   Runner of suite `locks` (C10): the lock programs (`Conc.footprint`) of the
-  operations of a script on a thread-safe subject with several subscriber
-  chains, printed as the harness prints the lock trace it records through hook
-  H2: `a<cell>@<depth>` per acquisition, `c<sub>@<depth>` per callback, cells
-  renamed in order of first acquisition.
+  operations of a script on a thread-safe pipeline, printed as the harness prints
+  the lock trace it records through hook H2: `a<cell>[<held>]` per acquisition,
+  `c<probe>[<held>]` per callback, `f0[<held>]` per finalizer call, cells renamed
+  in order of first acquisition.
+
+  The case describes a tree (harness/src/suites/locks_suite.rs): a root
+  `SubjectThreads` / `BehaviorSubject<_, SubjectThreads>` / `share_threads()`, its
+  subscriber chains over plain | cell | slot | fin | oo (observe_on_threads) |
+  dl (delay_threads) stages, ending in a probe or in a nested subject with its
+  own subscribers.  This file only keeps the book: which `Conc.Shape` the tree is
+  right now (`toShape`: subscribers come and go, every scheduled task adds a
+  handle cell), which `Conc.Op` (or script of them) a real API call is, and a
+  stable NAME for every model cell (`labels`, in the order `Conc.cells` counts
+  them) so that "the same cell" can be recognised across events although the
+  model renumbers the cells whenever the shape grows.  Every token printed comes
+  from `Conc.footprint` of the current shape.
 -/
 namespace Rx.Driver.LocksS
 open Rx.Driver Rx.Conc
 
-def chainShape (u : Nat) : List SExp → Shape
-  | [] => .leaf u
-  | .atom "plain" :: r => .plain (chainShape u r)
-  | .atom "cell" :: r => .cell (chainShape u r)
-  | .atom "slot" :: r => .slot (chainShape u r)
-  | .atom "fin" :: r => .fin (chainShape u r)
-  | _ :: r => chainShape u r
+/-- What a subject node is. `share`: the notifications the source emits from
+    inside `connect()`, and whether the first subscription has happened. -/
+inductive SK where
+  | plain
+  | behavior
+  | share (sync : List (Kind × Nat)) (connected : Bool)
 
-def mkShapes (u : Nat) : List SExp → Shapes
-  | [] => .nil
-  | c :: r => .cons (chainShape u c.elems) (mkShapes (u + 1) r)
+inductive El where
+  | plain | cell | slot | fin
+  /-- `observe_on_threads` (`dl = false`) / `delay_threads`; the tasks scheduled so far
+      (global spawn number, what they deliver), one handle cell each. -/
+  | task (dl : Bool) (ts : List (Nat × Kind))
 
-/-- The held cells under their first-acquisition numbers, ascending. -/
-def showHeld (names : List Nat) (held : List Nat) : String :=
-  let idxs := held.filterMap fun c => names.idxOf? c
-  String.intercalate "." ((idxs.mergeSort (· ≤ ·)).map toString)
+inductive W where
+  | leaf (u : Nat)
+  | st (e : El) (d : W)
+  | subj (id : Nat) (k : SK) (subs : List W)
 
-/-- Render a lock program; `names` maps model cells to their first-acquisition numbers. -/
-def render : List Act → List Nat → List Nat → List String → List Nat × List String
-  | [], names, _, acc => (names, acc.reverse)
-  | .acq c :: r, names, held, acc =>
-      let (names', idx) := match names.idxOf? c with
-        | some i => (names, i)
-        | none => (names ++ [c], names.length)
-      render r names' (c :: held) (s!"a{idx}[{showHeld names' held}]" :: acc)
-  | .rel c :: r, names, held, acc => render r names (held.erase c) acc
-  | .cb u _ :: r, names, held, acc => render r names held (s!"c{u}[{showHeld names held}]" :: acc)
-  | .atom _ :: r, names, held, acc => render r names held acc
+instance : Inhabited W := ⟨.leaf 0⟩
+instance : Inhabited Shape := ⟨.leaf 0⟩
+instance : Inhabited Shapes := ⟨.nil⟩
 
-def progOf (s : Shape) (ev : List SExp) : Option (List Act) :=
-  match ev with
-  | .atom "next" :: _ => some (footprint s (.here (.deliver .next 0)))
-  | .atom "complete" :: _ => some (footprint s (.here (.deliver .term 0)))
-  | .atom "error" :: _ => some (footprint s (.here (.deliver .term 0)))
-  | .atom "retain" :: _ => some (footprint s (.here .retain))
-  | .atom "size" :: _ => some (footprint s (.here .size))
-  | .atom "unsuball" :: _ => some (footprint s (.here .unsubAll))
-  | .atom "unsub" :: u :: _ => some (footprint s (.sub u.nat (.here .slotUnsub)))
+/-- Counters: next subject number, next probe number, next task number. -/
+structure Ctr where
+  subj : Nat := 0
+  probe : Nat := 0
+  task : Nat := 0
+
+def parseNotifKind : SExp → Kind × Nat
+  | .atom "c" => (.term false, 0)
+  | .list (.atom "e" :: _) => (.term true, 0)
+  | _ => (.next, 0)
+
+def elOf : String → Option El
+  | "plain" => some .plain
+  | "cell" => some .cell
+  | "slot" => some .slot
+  | "fin" => some .fin
+  | "oo" => some (.task false [])
+  | "dl" => some (.task true [])
   | _ => none
 
-def runLocksCase (id : String) (subs : List SExp) (events : List (List SExp)) : List String :=
-  let shape : Shape := .subject (mkShapes 0 subs)
-  let rec go (names : List Nat) (k : Nat) : List (List SExp) → List String
+mutual
+/-- How a delivery changes the tree: every task stage it reaches on the calling thread
+    schedules one task (but `delay_threads` forwards `error` at once). -/
+partial def deliverW (kd : Kind) (c : Ctr) : W → W × Ctr
+  | .leaf u => (.leaf u, c)
+  | .st (.task dl ts) d =>
+    match kd with
+    | .fin => (.st (.task dl ts) d, c)
+    | .term true =>
+      if dl then
+        let (d, c) := deliverW kd c d
+        (.st (.task dl ts) d, c)
+      else (.st (.task dl (ts ++ [(c.task, kd)])) d, { c with task := c.task + 1 })
+    | _ => (.st (.task dl (ts ++ [(c.task, kd)])) d, { c with task := c.task + 1 })
+  | .st e d =>
+    let (d, c) := deliverW kd c d
+    (.st e d, c)
+  | .subj id k subs =>
+    let (subs, c) := deliverWs kd c subs
+    (.subj id k subs, c)
+partial def deliverWs (kd : Kind) (c : Ctr) : List W → List W × Ctr
+  | [] => ([], c)
+  | d :: ds =>
+    let (d, c) := deliverW kd c d
+    let (ds, c) := deliverWs kd c ds
+    (d :: ds, c)
+end
+
+mutual
+/-- `(subject c*)` / `(behavior c*)` / `(share (notif*))`, numbered as the harness creates them. -/
+partial def parseNode (c : Ctr) (e : SExp) : W × Ctr :=
+  let id := c.subj
+  let c := { c with subj := c.subj + 1 }
+  match e with
+  | .list (.atom "behavior" :: chains) =>
+    let (subs, c) := parseChains true c chains
+    (.subj id .behavior subs, c)
+  | .list (.atom "share" :: r) =>
+    (.subj id (.share ((r.headD (.list [])).elems.map parseNotifKind) false) [], c)
+  | .list (_ :: chains) =>
+    let (subs, c) := parseChains false c chains
+    (.subj id .plain subs, c)
+  | _ => (.subj id .plain [], c)
+/-- The subscribers of a node, in order.  `greet`: the node is a `BehaviorSubject`, whose
+    `actual_subscribe` hands the current value to the new observer at once (a task stage schedules a task). -/
+partial def parseChains (greet : Bool) (c : Ctr) : List SExp → List W × Ctr
+  | [] => ([], c)
+  | ch :: r =>
+    let (w, c) := parseChain c ch.elems
+    let (w, c) := if greet then deliverW .next c w else (w, c)
+    let (ws, c) := parseChains greet c r
+    (w :: ws, c)
+/-- One subscriber chain, source side first; the observer at its end is the last element
+    if that is a list (a nested subject), a fresh probe otherwise. -/
+partial def parseChain (c : Ctr) : List SExp → W × Ctr
+  | [] => (.leaf c.probe, { c with probe := c.probe + 1 })
+  | [.list xs] => parseNode c (.list xs)
+  | x :: r =>
+    let (d, c) := parseChain c r
+    match elOf x.head with
+    | some e => (.st e d, c)
+    | none => (d, c)
+end
+
+mutual
+partial def toShape : W → Shape
+  | .leaf u => .leaf u
+  | .st .plain d => .plain (toShape d)
+  | .st .cell d => .cell (toShape d)
+  | .st .slot d => .slot (toShape d)
+  | .st .fin d => .fin (toShape d)
+  | .st (.task dl ts) d => .task dl ts.length (toShape d)
+  | .subj _ .plain subs => .subject (toShapes subs)
+  | .subj _ .behavior subs => .behavior (.subject (toShapes subs))
+  | .subj _ (.share _ _) subs => .share (.subject (toShapes subs))
+partial def toShapes : List W → Shapes
+  | [] => .nil
+  | d :: ds => .cons (toShape d) (toShapes ds)
+end
+
+mutual
+/-- A name for every cell of `toShape w`, in the order `Conc.cells` counts them (pre-order).
+    `pfx`/`depth`: the subscriber the chain belongs to and the position of the stage in it. -/
+partial def labels (pfx : String) (depth : Nat) : W → List String
+  | .leaf _ => []
+  | .st .plain d => labels pfx (depth + 1) d
+  | .st (.task _ ts) d =>
+    s!"{pfx}/{depth}m" :: (ts.map fun t => s!"h{t.1}") ++ s!"{pfx}/{depth}s" :: labels pfx (depth + 1) d
+  | .st _ d => s!"{pfx}/{depth}" :: labels pfx (depth + 1) d
+  | .subj id k subs =>
+    let pre := match k with
+      | .plain => []
+      | .behavior => [s!"S{id}.v"]
+      | .share _ _ => [s!"S{id}.sh"]
+    pre ++ s!"S{id}.o" :: s!"S{id}.c" :: subLabels id 0 subs
+partial def subLabels (id : Nat) (i : Nat) : List W → List String
+  | [] => []
+  | d :: ds => s!"S{id}.{i}" :: labels s!"S{id}.{i}" 0 d ++ subLabels id (i + 1) ds
+end
+
+def allLabels (w : W) : List String := labels "R" 0 w
+
+/-- Address the inner `SubjectThreads` of a node from the node. -/
+def innerSubj : SK → Op → Op
+  | .plain, o => o
+  | _, o => .inner o
+
+mutual
+/-- The address (`Conc.Op` context) of node `id`, and what it is. -/
+partial def pathTo (id : Nat) : W → Option ((Op → Op) × SK × List W)
+  | .leaf _ => none
+  | .st _ d => (pathTo id d).map fun (f, r) => (fun o => .inner (f o), r)
+  | .subj id' k subs =>
+    if id' = id then some (fun o => o, k, subs)
+    else (pathSubs id 0 subs).map fun (f, r) => (fun o => innerSubj k (f o), r)
+partial def pathSubs (id : Nat) (i : Nat) : List W → Option ((Op → Op) × SK × List W)
+  | [] => none
+  | d :: ds =>
+    match pathTo id d with
+    | some (f, r) => some (fun o => .sub i (.inner (f o)), r)
+    | none => pathSubs id (i + 1) ds
+end
+
+mutual
+/-- The address of the task stage that owns task `g`, the task's index among the stage's
+    handles and what it delivers. -/
+partial def pathTask (g : Nat) : W → Option ((Op → Op) × Nat × Kind)
+  | .leaf _ => none
+  | .st (.task _ ts) d =>
+    match ts.findIdx? (·.1 == g) with
+    | some i => some (fun o => o, i, ((ts.getD i (0, .next)).2))
+    | none => (pathTask g d).map fun (f, r) => (fun o => .inner (f o), r)
+  | .st _ d => (pathTask g d).map fun (f, r) => (fun o => .inner (f o), r)
+  | .subj _ k subs => (pathTaskSubs g 0 subs).map fun (f, r) => (fun o => innerSubj k (f o), r)
+partial def pathTaskSubs (g : Nat) (i : Nat) : List W → Option ((Op → Op) × Nat × Kind)
+  | [] => none
+  | d :: ds =>
+    match pathTask g d with
+    | some (f, r) => some (fun o => .sub i (.inner (f o)), r)
+    | none => pathTaskSubs g (i + 1) ds
+end
+
+/-- Apply `f` to node `id`. -/
+partial def atNode (id : Nat) (f : W → Ctr → W × Ctr) (c : Ctr) : W → W × Ctr
+  | .leaf u => (.leaf u, c)
+  | .st e d =>
+    let (d, c) := atNode id f c d
+    (.st e d, c)
+  | .subj id' k subs =>
+    if id' = id then f (.subj id' k subs) c
+    else
+      let (subs, c) := subs.foldl (fun (acc : List W × Ctr) d =>
+        let (d, c) := atNode id f acc.2 d
+        (acc.1 ++ [d], c)) ([], c)
+      (.subj id' k subs, c)
+
+/-- Apply `f` to what is downstream of the task stage that owns task `g`. -/
+partial def afterTask (g : Nat) (f : W → Ctr → W × Ctr) (c : Ctr) : W → W × Ctr
+  | .leaf u => (.leaf u, c)
+  | .st (.task dl ts) d =>
+    if ts.any (·.1 == g) then
+      let (d, c) := f d c
+      (.st (.task dl ts) d, c)
+    else
+      let (d, c) := afterTask g f c d
+      (.st (.task dl ts) d, c)
+  | .st e d =>
+    let (d, c) := afterTask g f c d
+    (.st e d, c)
+  | .subj id k subs =>
+    let (subs, c) := subs.foldl (fun (acc : List W × Ctr) d =>
+      let (d, c) := afterTask g f acc.2 d
+      (acc.1 ++ [d], c)) ([], c)
+    (.subj id k subs, c)
+
+def addSub (new : W) : W → W
+  | .subj id k subs => .subj id k (subs ++ [new])
+  | w => w
+
+def setConnected : W → W
+  | .subj id (.share es _) subs => .subj id (.share es true) subs
+  | w => w
+
+/-- What `unsubscribe()` of a subscriber's subscription does below the subject's own slot:
+    `FinalizerSubscription` runs the finalizer cell, `ZipSubscription<_, MultiSubscriptionThreads>`
+    of observe_on / delay cancels the tasks; source side first. -/
+partial def stageOps (wrap : Op → Op) : W → List Op
+  | .st .fin d => wrap (.here .finUnsub) :: stageOps (fun o => wrap (.inner o)) d
+  | .st (.task _ _) d => wrap (.here .multiUnsub) :: stageOps (fun o => wrap (.inner o)) d
+  | .st _ d => stageOps (fun o => wrap (.inner o)) d
+  | _ => []
+
+/-- The held cells under their first-acquisition numbers, ascending. -/
+def showHeld (labs : List String) (names : List String) (held : List Nat) : String :=
+  let idxs := held.filterMap fun c => (labs[c]?).bind fun l => names.idxOf? l
+  String.intercalate "." ((idxs.mergeSort (· ≤ ·)).map toString)
+
+/-- Render a lock program; `labs` names the model cells, `names` lists the names in order of
+    first acquisition. -/
+def render (labs : List String) : List Act → List String → List Nat → List String → List String × List String
+  | [], names, _, acc => (names, acc.reverse)
+  | .acq c :: r, names, held, acc =>
+      let lab := (labs[c]?).getD s!"?{c}"
+      let (names', idx) := match names.idxOf? lab with
+        | some i => (names, i)
+        | none => (names ++ [lab], names.length)
+      render labs r names' (c :: held) (s!"a{idx}[{showHeld labs names' held}]" :: acc)
+  | .rel c :: r, names, held, acc => render labs r names (held.erase c) acc
+  | .cb u _ :: r, names, held, acc => render labs r names held (s!"c{u}[{showHeld labs names held}]" :: acc)
+  -- `atom 0` is the call of a finalizer (under its cell), which the harness's finalizers record;
+  -- the other atoms (the value store of a behaviour subject) leave no trace
+  | .atom 0 :: r, names, held, acc => render labs r names held (s!"f0[{showHeld labs names held}]" :: acc)
+  | .atom _ :: r, names, held, acc => render labs r names held acc
+
+structure St where
+  w : W
+  c : Ctr
+  names : List String := []
+
+/-- One event: the script of model operations the real call is, on which shape, under which
+    cell names; and the tree afterwards. -/
+def stepEv (s : St) (ev : List SExp) : Option (List Act × List String × W × Ctr) :=
+  let (sid, ev) := match ev with
+    | .atom "on" :: i :: r => (i.nat, r)
+    | r => (0, r)
+  let w := s.w
+  let shape := toShape w
+  let labs := allLabels w
+  let run (os : List Op) := os.flatMap (footprint shape)
+  match ev with
+  | .atom "poll" :: g :: _ =>
+    (pathTask g.nat w).map fun (f, i, kd) =>
+      let (w', c') := afterTask g.nat (fun n c => deliverW kd c n) s.c w
+      (run [f (.here (.taskPoll i kd 0))], labs, w', c')
+  | .atom "pend" :: g :: _ =>
+    (pathTask g.nat w).map fun (f, i, _) => (run [f (.here (.taskPend i))], labs, w, s.c)
+  | .atom op :: args =>
+    (pathTo sid w).bind fun (f, k, subs) =>
+      let sub := fun o => f (innerSubj k o)
+      let deliv (kd : Kind) :=
+        let (w', c') := atNode sid (fun n c => deliverW kd c n) s.c w
+        some (run [f (.here (.deliver kd 0))], labs, w', c')
+      match op with
+      | "next" => deliv .next
+      | "complete" => deliv (.term false)
+      | "error" => deliv (.term true)
+      | "fin" => some (run [f (.here (.deliver .fin 0))], labs, w, s.c)
+      | "retain" => some (run [sub (.here .retain)], labs, w, s.c)
+      | "size" => some (run [sub (.here .size)], labs, w, s.c)
+      | "unsuball" => some (run [sub (.here .unsubAll)], labs, w, s.c)
+      | "unsub" =>
+        let i := (args.headD (.atom "0")).nat
+        let refc := match k with
+          | .share _ _ => [sub (.here .size)]
+          | _ => []
+        let below := stageOps (fun o => sub (.sub i (.inner o))) (subs.getD i (.leaf 0))
+        some (run (sub (.sub i (.here .slotUnsub)) :: refc ++ below), labs, w, s.c)
+      | "subscribe" =>
+        let (new, c1) := parseChain s.c (args.headD (.list [])).elems
+        match k with
+        | .plain =>
+          let (w', c') := atNode sid (fun n c => (addSub new n, c)) c1 w
+          some (run [f (.here (.subscribe (toShape new) 0))], labs, w', c')
+        | .behavior =>
+          -- the new observer is called (under the value cell) before it becomes a subscriber: its cells are
+          -- numbered after the cells of the behaviour subject (`opAt`), whatever else the pipeline has there
+          let nodeLabs := labels "R" 0 (.subj sid k subs)
+          let pos := (labs.idxOf? s!"S{sid}.v").getD 0 + nodeLabs.length
+          let labs' := labs.take pos ++ labels s!"S{sid}.{subs.length}" 0 new
+          let (new', c2) := deliverW .next c1 new
+          let (w', c') := atNode sid (fun n c => (addSub new' n, c)) c2 w
+          some (run [f (.here (.subscribe (toShape new) 0))], labs', w', c')
+        | .share es connected =>
+          if connected then
+            let (w', c') := atNode sid (fun n c => (addSub new n, c)) c1 w
+            some (run [f (.here (.subscribe (toShape new) 0))], labs, w', c')
+          else
+            let (w1, c2) := atNode sid (fun n c => (setConnected (addSub new n), c)) c1 w
+            let (w', c') := es.foldl (fun (acc : W × Ctr) e =>
+              atNode sid (fun n c => deliverW e.1 c n) acc.2 acc.1) (w1, c2)
+            some ((footprint (toShape w1) (f (.here (.shareConnect es)))), allLabels w1, w', c')
+      | _ => none
+  | _ => none
+
+def runLocksCase (id : String) (root : List SExp) (subs : List SExp) (events : List (List SExp)) :
+    List String :=
+  let rootE : SExp := match root with
+    | e :: _ => e
+    | [] => .list (.atom "subject" :: subs)
+  let (w, c) := parseNode {} rootE
+  let rec go (s : St) (k : Nat) : List (List SExp) → List String
     | [] => []
     | ev :: r =>
-      match progOf shape ev with
-      | some p =>
-        let (names', toks) := render p names [] []
-        s!"{id}.{k} t={String.intercalate "," toks}" :: go names' (k + 1) r
+      match stepEv s ev with
+      | some (p, labs, w', c') =>
+        let (names', toks) := render labs p s.names [] []
+        s!"{id}.{k} t={String.intercalate "," toks}" :: go { w := w', c := c', names := names' } (k + 1) r
       | none => [s!"{id}.{k} BADEV"]
-  go [] 0 events
+  go { w := w, c := c } 0 events
 
 /-- Suite `behaviorrace`: the schedule store₁, store₂, broadcast₂, broadcast₁ of
     `C12_race_counterexample` executed on the behaviour-subject LTS. -/
